@@ -69,6 +69,12 @@ def run(ctx):
     c16.r3(Renamed(ctx, "C16.R3", "C12.R8"), facts)
     r5(ctx, facts)
     r6(ctx, facts)
+    r10_process_id(ctx, facts)
+    # a statement replayed from the backtrace ring is formatted from the thread id / thread name / event stored with it (= C18.R3);
+    # the reused backend slot hands no named args of an earlier statement to the %(named_args) attribute (= C10.R2)
+    from rules import c18, c10
+    c18.r3(Renamed(ctx, "C18.R3", "C12.R11"), facts, "A")
+    c10.r2(Renamed(ctx, "C10.R2", "C12.R12"), facts, "A")
 
 
 def targ_index(callee, fname):
@@ -410,7 +416,12 @@ def r4_scan(ctx, facts):
     ctx.ob("C12.R4g", "_generate_fmt_format_string:scan-skips-nothing", not bad and n_attr >= 1 and n_other >= 1,
            "after an attribute was replaced the search for the next '%%' resumes at the start, at the replacement or right behind it — "
            "never further; after a '%%' that opens no attribute it resumes at the very next character (%s)" % ("; ".join(bad) or "ok"), fn=f)
-    # R7: two option sets are 'the same formatter' only if every member is equal (formatters are shared between loggers by this test)
+    r7_options_equality(ctx, facts)
+
+
+def r7_options_equality(ctx, facts):
+    """R7: two option sets are 'the same formatter' only if every member is equal (formatters are shared between loggers by this test);
+    shared with C13 (time zone / timestamp pattern of the shared formatter) and C16 (each sink gets the logger's own pattern)"""
     crec = facts.cls("quill::PatternFormatterOptions", "A")
     eq = [x for x in facts.fns if x.config == "A" and x.short == "quill::PatternFormatterOptions::operator=="]
     if not crec or not eq:
@@ -664,3 +675,57 @@ def r6(ctx, facts):
                             ok = bool(_re.search(r"[^:]:\d+$", lit[0]["str"]))
     ctx.ob("C12.R6e", "QUILL_DEFINE_MACRO_METADATA:source-location-literal", ok,
            "the macro's source-location literal is __FILE__ ':' line-number (what the offsets above are computed on)")
+
+
+def r10_process_id(ctx, facts):
+    """R10: the text substituted for %(process_id) is the process id, whichever way the backend is driven: _process_id is assigned from
+    get_process_id() in every BackendWorker constructor — or, failing that, before polling starts on both start paths (the backend
+    thread's run() and ManualBackendWorker::init(), which never goes through run())."""
+    bw_cls = "quill::detail::BackendWorker"
+
+    def writes(f):
+        out = []
+        for n in f.walk():
+            tgt, rhs = None, None
+            if n["k"] == "BinaryOperator" and n["op"] == "=":
+                tgt, rhs = n["lhs"], n["rhs"]
+            elif n["k"] == "CXXOperatorCallExpr" and (n.get("callee") or "").endswith("operator=") and len(n["args"]) == 2:
+                tgt, rhs = n["args"][0], n["args"][1]
+            if tgt is not None and is_this_field(tgt, "_process_id"):
+                out.append((n, any(is_call(x, r"get_process_id$") for x in walk(rhs))))
+        for i in f.rec.get("inits") or []:
+            if i.get("member") == "_process_id" and i.get("expr") is not None and i.get("written"):
+                out.append((i["expr"], any(is_call(x, r"get_process_id$") for x in walk(i["expr"]))))
+        return out
+    fns = [f for f in facts.fns if f.config == "A" and f.cls == bw_cls]
+    ctors = [f for f in fns if f.rec.get("ctor") and not (len(f.rec.get("params") or []) == 1 and "BackendWorker" in f.rec["params"][0].get("ty", ""))]
+    if not ctors:
+        raise AnalysisBroken("BackendWorker constructor not found")
+    all_w = [(f, w) for f in fns for w in writes(f)]
+    if not all_w:
+        raise AnalysisBroken("no assignment to BackendWorker::_process_id found")
+    from_pid = all(ok for (f, (n, ok)) in all_w)
+    in_ctor = all(writes(c) for c in ctors)
+    where = sorted(set(f.short.split("::")[-1] for (f, w) in all_w))
+    if not in_ctor:
+        # both start paths must pass an assignment before they reach _poll: run() and ManualBackendWorker::init()
+        cg = facts.callgraph("A")
+        byid = {id(f): f for f in facts.fns}
+        wset = {id(f) for (f, w) in all_w}
+
+        def reaches(root):
+            seen, todo = set(), [id(root)]
+            while todo:
+                x = todo.pop()
+                if x in seen:
+                    continue
+                seen.add(x)
+                if x in wset:
+                    return True
+                todo += [id(t) for t in cg.get(x, ()) if t.cls in (bw_cls, "quill::ManualBackendWorker") or t.rec.get("parent")]
+            return False
+        roots = facts.need(bw_cls + "::run", "A") + facts.need("quill::ManualBackendWorker::init", "A")
+        in_ctor = all(reaches(r) for r in roots)
+    ctx.ob("C12.R10", "BackendWorker:process-id-set-on-every-start-path", from_pid and in_ctor,
+           "_process_id is assigned from get_process_id() in every constructor, or on both start paths (run() and "
+           "ManualBackendWorker::init()); assigned in: %s, from get_process_id(): %s" % (where, from_pid), fn=ctors[0])
